@@ -95,4 +95,66 @@ func (s *ResettableKeystore) handleResetOp(op resetOp)
   ghost at before call(Put): assert($altSynced); assert($arg1 == activeNamespaceKey && len($arg2) == 1 && $arg2[0] == 1 - s.activeNamespace)
   ghost at call(Put): $marker = ($ret0 == nil)
   ghost at assign(s.ds): assert($marker)
+
+# ---- shutdown protocol (C14) -----------------------------------------------------
+# One worker goroutine per keystore. It is started as the constructor's last
+# fallible-free step (an error return has started nothing), leaves its loop
+# only on the close signal, and announces its exit by closing `done` on every
+# path. Close sends the close signal exactly once and returns only after the
+# worker's exit signal (and, resettable: after the in-flight alternate-store
+# write released its token). Waits performed ON the worker goroutine must be
+# released by the close signal - `done` is closed by the worker itself and can
+# never release it.
+immutable "github.com/libp2p/go-libp2p-kad-dht/provider/keystore.ErrClosed"
+
+# (opaque: nothing assumed about option processing)
+func getOpts(opts []Option) (config, error)
+  modifies *
+func getResettableOpts(opts []ResettableKeystoreOption) (resettableKeystoreConfig, error)
+  modifies *
+
+func NewKeystore(d ds.Batching, opts ...Option) (Keystore, error)
+  props C14
+  constructor
+  ghostvar $spawned bool = false
+  modifies *
+  ensures [error-starts-nothing] imp(result1 != nil, !$spawned)
+  ensures [success-starts-the-worker] imp(result1 == nil, $spawned)
+  ghost at go(worker): $spawned = true
+
+func NewResettableKeystore(d ds.Batching, opts ...ResettableKeystoreOption) (*ResettableKeystore, error)
+  props C14
+  constructor
+  ghostvar $spawned bool = false
+  modifies *
+  ensures [error-starts-nothing] imp(result1 != nil, !$spawned)
+  ensures [success-starts-the-worker] imp(result1 == nil, $spawned)
+  ghost at go(worker): $spawned = true
+
+func (s *keystore) worker()
+  props C14
+  modifies *
+  ensures [exit-only-on-close-signal] tagged("recv:s.close")
+  ensures [exit-is-announced] tagged("closed:s.done")
+
+func (s *ResettableKeystore) worker()
+  props C14
+  modifies *
+  ensures [exit-only-on-close-signal] tagged("recv:s.close")
+  ensures [exit-is-announced] tagged("closed:s.done")
+
+func (s *keystore) Close() error
+  props C14
+  modifies *
+  ensures [returns-after-the-worker-exited] imp(tagged("closed:s.close"), tagged("recv:s.done"))
+
+func (s *ResettableKeystore) Close() (err error)
+  props C14
+  modifies *
+  ensures [returns-after-the-worker-exited] imp(tagged("closed:s.close"), tagged("recv:s.done") && tagged("recv:s.altDsBusy"))
+
+func (s *ResettableKeystore) bufferKeys(ctx context.Context, keys []mh.Multihash) error
+  props C14
+  modifies *
+  ghost at recv(s.close): assert(true)
 @*/
